@@ -78,6 +78,7 @@ def Rcol (c : Chr) : Path → Bool
   | .groups c' => c' == c
   | .bamstat c' => c' == c
   | .collected c' => c' == c
+  | .refFa => true          -- the unpacked reference (written by the main process before the stage)
   | _ => false
 
 theorem collectChr_agree (v : Variant) (cfg : Cfg) (rs sk : Bool) (c : Chr) (fs fs' : FS)
@@ -86,7 +87,8 @@ theorem collectChr_agree (v : Variant) (cfg : Cfg) (rs sk : Bool) (c : Chr) (fs 
   have h2 : fs' (.collected c) = fs (.collected c) := h _ (by simp [Rcol])
   have h3 : fs' (.groups c) = fs (.groups c) := h _ (by simp [Rcol])
   have h4 : fs' (.save c) = fs (.save c) := h _ (by simp [Rcol])
-  simp only [collectChr, FS.has, FS.good, h1, h2, h3, h4]
+  have h5 : fs' .refFa = fs .refFa := h _ rfl
+  simp only [collectChr, refOK, FS.has, FS.good, h1, h2, h3, h4, h5]
   rfl
 
 theorem collectChr_paths (v : Variant) (cfg : Cfg) (rs sk : Bool) (c : Chr) (fs : FS) :
@@ -113,13 +115,15 @@ def Rcon (c : Chr) : Path → Bool
   | .readStat c' => c' == c
   | .trStat c' => c' == c
   | .processed c' => c' == c
+  | .refFa => true
   | _ => false
 
 theorem constructChr_agree (v : Variant) (cfg : Cfg) (rs : Bool) (c : Chr) (fs fs' : FS)
     (h : ∀ p, Rcon c p = true → fs' p = fs p) : constructChr v cfg rs c fs' = constructChr v cfg rs c fs := by
   have h1 : fs' (.processed c) = fs (.processed c) := h _ (by simp [Rcon])
   have h2 : fs' .info = fs .info := h _ rfl
-  simp only [constructChr, FS.has, FS.good, h1, h2]
+  have h3 : fs' .refFa = fs .refFa := h _ rfl
+  simp only [constructChr, refOK, FS.has, FS.good, h1, h2, h3]
   rfl
 
 set_option maxRecDepth 8000 in
